@@ -71,6 +71,11 @@ class Service17Tm(AbstractPusTm):
     def pack(self) -> bytearray:
         return self.pus_tm.pack()
 
+    def __eq__(self, other: object) -> bool:
+        if not isinstance(other, Service17Tm):
+            return False
+        return self.pus_tm == other.pus_tm
+
     @classmethod
     def __empty(cls) -> Service17Tm:
         return cls(apid=0, subservice=0, timestamp=bytes())
